@@ -39,7 +39,7 @@ def gen(seed, idx, tier):
         ]
         scn["meta"]["cancel_in_step"] = True
         return scn
-    return scen.maybe_restored(rnd, scen.maybe_solve_twice(rnd, scn))
+    return scen.maybe_moved(rnd, scen.maybe_restored(rnd, scen.maybe_solve_twice(rnd, scn)), 0.08)
 
 
 def check_frames(sim, h):
